@@ -227,6 +227,60 @@ def check_process_equals_circuit(kind):
     return runner.from_exploration(name, Exploration(name, body).run())
 
 
+def check_process_after_reset():
+    """a process replacing a combinational circuit, over run / Simulator.reset() / run: in EVERY run the process sees the
+    initial values at time 0 (its output equals the circuit's before anything changes) and follows every change; signals with
+    non-zero initial values, so that the time-0 evaluation matters"""
+    from amaranth.hdl import Module, Signal
+    from amaranth.sim import Simulator
+    name = "engine[process=circuit,after-reset]"
+
+    def run(path, as_process, va):
+        a, b, o = Signal(3, name="a", init=3), Signal(3, name="b", init=4), Signal(4, name="o")
+        m = Module()
+        dummy = Signal(name="dummy")
+        m.d.sync += dummy.eq(~dummy)
+        if not as_process:
+            m.d.comb += o.eq(a + b)
+        sim = Simulator(m)
+        sim.add_clock(1e-6)
+        if as_process:
+            async def proc(ctx):
+                async for av, bv in ctx.changed(a, b):
+                    ctx.set(o, av + bv)
+            sim.add_process(proc)
+        runs = []
+
+        async def tb(ctx):
+            res = {}
+            runs.append(res)
+            await ctx.delay(1e-7)
+            res["o-before-any-change"] = ctx.get(o)
+            ctx.set(a, va)
+            res["o-after-change"] = ctx.get(o)
+            await ctx.tick()
+            res["o-later"] = ctx.get(o)
+        sim.add_testbench(tb)
+        with symbolic_engine():
+            sim.run_until(2.2e-6)
+            sim.reset()
+            sim.run_until(2.2e-6)
+            sim.reset()
+            sim.run_until(2.2e-6)
+        return runs
+
+    def body(path):
+        va = path.var("va", 0, 7)
+        x = run(path, False, va)
+        y = run(path, True, va)
+        path.prove(f"{name}::three-runs", len(x) == 3 and len(y) == 3)
+        for k in range(min(len(x), len(y))):
+            path.prove(f"{name}::run{k}::output-at-time-0", And(to_sint(y[k]["o-before-any-change"]) == 7, to_sint(x[k]["o-before-any-change"]) == 7))
+            path.prove(f"{name}::run{k}::output-follows-change", And(to_sint(y[k]["o-after-change"]) == va + 4, to_sint(x[k]["o-after-change"]) == va + 4,
+                                                                      to_sint(y[k]["o-later"]) == va + 4))
+    return runner.from_exploration(name, Exploration(name, body).run())
+
+
 def check_testbench_order():
     """testbenches run in the order in which they were added, also when an earlier one wakes a later one in the middle of
     a pass: `monitor` (added second, waiting for `valid`) sees the data `driver` (added first) wrote, not what `other`
@@ -385,7 +439,7 @@ def check_kernel_agrees(k, e=None, broken=False):
 
 def tasks(tier):
     ts = [("engine-chain", edge, rot) for edge in ("pos", "neg") for rot in ((0, 1, 2, 3) if tier == "quick" else range(6))]
-    ts += [("engine-proc", "comb"), ("engine-proc", "sync"), ("engine-tb-order",)]
+    ts += [("engine-proc", "comb"), ("engine-proc", "sync"), ("engine-proc", "after-reset"), ("engine-tb-order",)]
     ts += kernel_tasks(tier)
     return ts
 
@@ -394,6 +448,8 @@ def run_task(task):
     k = task[0]
     if k == "engine-chain":
         return check_chain(task[1], task[2])
+    if k == "engine-proc" and task[1] == "after-reset":
+        return check_process_after_reset()
     if k == "engine-proc":
         return check_process_equals_circuit(task[1])
     if k == "engine-tb-order":
